@@ -198,6 +198,21 @@ def days_job(name, k, span, twin=False, max_s=800, first_kind=None,
     desc = None
     if res[0] == 'exc':
       bad = ['exception other than ValueError: %r' % (res[1],)]
+      w = eng_.witness()
+      if w is not None:
+        desc = []
+        for i in range(k):
+          if i == 0 and first_kind is not None:
+            kind = first_kind
+          elif i == 1 and second_kind is not None:
+            kind = second_kind
+          else:
+            kind = int(symx.model_value(w, z3.Int('kind%d' % i)))
+          kind = max(1, min(3, kind))
+          desc.append([(int(symx.model_value(w, z3.Int('o_%d_%d' % (i, j)))),
+                        True if wellformed else z3.is_true(w.eval(z3.Bool(
+                            'ok_%d_%d' % (i, j)), model_completion=True)))
+                       for j in range(kind)])
     else:
       spec, bad = res[1]
       if bad or twin or len(js.r['samples']) < 3:
@@ -234,6 +249,12 @@ CONF_CASES = [
     ['2019/12/30-2020/01/02', '2019/12/31', '2020/01/01 - 2020/01/01'],
     ['2021/02/27-2021/03/01'],
     ['2020/01/31', '2020/02/01', '2020/01/31'],
+    # the same string again after a call in which it overlapped a later-
+    # ending entry (calls must not influence each other)
+    ['2020/02/25 - 2020/03/02', '2020/03/01 - 2020/03/10'],
+    ['2020/02/25 - 2020/03/02'],
+    ['2020/06/11-2020/06/10'],
+    ['2020/03/01 - 2020/02/29'],
     ['2020/03/05-2020/03/01'],
     ['2020/02/30'],
     ['2020-03-05'],
@@ -248,12 +269,15 @@ def conformance_job(name):
   from matched_markets.methodology import utils as U
   js = framework.JobStats(name)
   n = 0
-  for case in CONF_CASES:
+  for ci, case in enumerate(CONF_CASES):
     bad = _concrete_mismatch(U, case)
     js.r['obligations'] += 1
     n += 1
     if bad:
-      js.r['violations'].append(dict(case=dict(kind='strings', strings=case),
+      # the calls made before this one in the same process are part of the
+      # case (calls must not influence each other)
+      js.r['violations'].append(dict(case=dict(
+          kind='strings', strings=case, earlier_calls=CONF_CASES[:ci]),
                                      detail=bad))
     else:
       js.r['discharged'] += 1
@@ -341,8 +365,13 @@ def jobs(tier, seed):
 def replay(case):
   from matched_markets.methodology import utils as U
   if case.get('kind') == 'strings':
+    for prev in case.get('earlier_calls') or []:
+      _concrete_mismatch(U, prev)
     bad = _concrete_mismatch(U, case['strings'])
-    return dict(violates=bool(bad), key='C20:strings', detail=bad)
+    alone = case.get('earlier_calls') is not None
+    return dict(violates=bool(bad), key='C20:strings', detail='%s%s' % (
+        bad, ' (after %d earlier calls in the same process)' % len(
+            case['earlier_calls']) if alone and bad else ''))
   if case.get('entries') is None:
     return dict(violates=False, detail='no concrete entries')
   strings = []
